@@ -61,8 +61,8 @@ func runC34(c *core.Ctx) {
 				ea, eb := host.AllEngines[a], host.AllEngines[b]
 				min := minimize(p.Source, func(cand string) bool {
 					ha, hb := host.New(), host.New()
-					oa := ha.RunScript(ea, cand, nil, nil)
-					ob := hb.RunScript(eb, cand, nil, nil)
+					oa := ha.RunScript(ea, cand, nil, limited())
+					ob := hb.RunScript(eb, cand, nil, limited())
 					if isCheckerRejection(oa) || isCheckerRejection(ob) {
 						return false
 					}
@@ -140,7 +140,7 @@ func runC34(c *core.Ctx) {
 					h2.Codes[k] = v
 				}
 				h2.UUID = preUUID[ei]
-				o2 := h2.RunTx(eng, cand, nil, signers, nil)
+				o2 := h2.RunTx(eng, cand, nil, signers, limited())
 				return observe(h2, o2), !isCheckerRejection(o2)
 			}
 			min := src
